@@ -251,8 +251,11 @@ func c18Host(i int) string { return fmt.Sprintf("h%d.local", i) }
 
 var c18Debug = os.Getenv("C18_DEBUG") != ""
 
-// c18Run returns the canonical implementation output of one scenario
-func c18Run(sc *c18Scenario) (string, error) {
+// c18Run returns the implementation output of one scenario.  With pad, three extra ingresses
+// (own host, own service, no authentication) are registered after every ingress of the scenario:
+// they only spread the scenario's hosts and backends over the Go maps the converter iterates,
+// so that every iteration order shows up with a fair probability (see c18Exec).
+func c18Run(sc *c18Scenario, pad bool) (string, error) {
 	logger := &c18Logger{}
 	trk := tracker.NewTracker()
 	cache := conv_helper.NewCacheMock(trk)
@@ -301,7 +304,13 @@ func c18Run(sc *c18Scenario) (string, error) {
 		IsExternal:       sc.ext,
 		FakeCrtFile:      convtypes.CrtFile{Filename: "/tls/fake.pem", SHA1Hash: "1"},
 	}
-	for _, n := range []string{"default/echo0", "default/echo1", "default/oauth2proxy", "default/authsvc", "other/authsvc2"} {
+	svcNames := []string{"default/echo0", "default/echo1", "default/oauth2proxy", "default/authsvc", "other/authsvc2"}
+	if pad {
+		for i := 0; i < 3*len(sc.ings); i++ {
+			svcNames = append(svcNames, fmt.Sprintf("default/pad%02d", i))
+		}
+	}
+	for _, n := range svcNames {
 		p := strings.Split(n, "/")
 		svc, ep := c18Service(p[0], p[1])
 		cache.SvcList = append(cache.SvcList, svc)
@@ -331,6 +340,28 @@ func c18Run(sc *c18Scenario) (string, error) {
 			pt = networking.PathTypePrefix
 		case 'e':
 			pt = networking.PathTypeExact
+		}
+		if pad {
+			for k := 0; k < 3; k++ {
+				n := 3*i + k
+				cache.IngList = append(cache.IngList, &networking.Ingress{
+					ObjectMeta: metav1.ObjectMeta{Namespace: "default", Name: fmt.Sprintf("ing%02dpad%d", i+1, k)},
+					Spec: networking.IngressSpec{
+						Rules: []networking.IngressRule{{
+							Host: fmt.Sprintf("pad%02d.local", n),
+							IngressRuleValue: networking.IngressRuleValue{HTTP: &networking.HTTPIngressRuleValue{
+								Paths: []networking.HTTPIngressPath{{
+									Path:     "/pad",
+									PathType: &pt,
+									Backend: networking.IngressBackend{Service: &networking.IngressServiceBackend{
+										Name: fmt.Sprintf("pad%02d", n), Port: networking.ServiceBackendPort{Number: 8080},
+									}},
+								}},
+							}},
+						}},
+					},
+				})
+			}
 		}
 		cache.IngList = append(cache.IngList, &networking.Ingress{
 			ObjectMeta: metav1.ObjectMeta{Namespace: "default", Name: fmt.Sprintf("ing%02d", i+1), Annotations: ann},
@@ -730,14 +761,14 @@ func c18Resolve(lines []string, guard func(c18Cond) (bool, error)) (string, erro
 
 // ---------------------------------------------------------------- emit
 
-func c18Exec(sc *c18Scenario) (out string) {
+func c18Once(sc *c18Scenario, pad bool) (out string) {
 	defer func() {
 		if r := recover(); r != nil {
 			out = "PANIC"
 			fmt.Fprintf(os.Stderr, "C18 panic on %s: %v\n", sc.args(), r)
 		}
 	}()
-	res, err := c18Run(sc)
+	res, err := c18Run(sc, pad)
 	if err != nil {
 		fmt.Fprintf(os.Stderr, "C18 harness error on %s: %v\n", sc.args(), err)
 		return "ERROR"
@@ -745,11 +776,69 @@ func c18Exec(sc *c18Scenario) (out string) {
 	return res
 }
 
-func c18case(c *ctx, sc *c18Scenario) { c18emit(c, sc, c18Exec(sc)) }
+// c18OrderSensitive: the converter walks Hosts().Items() and Backends().Items(), two Go maps. The
+// outcome can depend on that order only when two hosts run buildHostAuthExternal's loop or two
+// backends call setAuthExternal (they compete for the auth-proxy ports). Over-approximation.
+func c18OrderSensitive(sc *c18Scenario) bool {
+	hostF, hostU, backs := map[int]bool{}, map[int]bool{}, map[int]bool{}
+	for _, g := range sc.ings {
+		hasURL := g.url != "-" && g.url != "e"
+		if g.plc == "f" || g.plc == "F" {
+			hostF[g.host] = true
+		}
+		if hasURL {
+			hostU[g.host] = true
+			if g.plc == "-" || g.plc == "b" || g.plc == "B" {
+				backs[g.svc] = true
+			}
+		}
+	}
+	nh := 0
+	for h := range hostF {
+		if hostU[h] {
+			nh++
+		}
+	}
+	return nh >= 2 || len(backs) >= 2
+}
 
-func c18emit(c *ctx, sc *c18Scenario, out string) {
+// c18Exec: the canonical implementation output of a scenario. An order-insensitive scenario is run
+// once. An order-sensitive one is run (padded, see c18Run) until 30 runs in a row brought no new
+// output, and the smallest output seen is reported: the map iteration order of the real code
+// cannot be seeded, this makes the reported line a function of the scenario.
+func c18Exec(sc *c18Scenario) (out string, distinct int) {
+	if !c18OrderSensitive(sc) {
+		return c18Once(sc, false), 1
+	}
+	seen := map[string]bool{}
+	quiet := 0
+	for n := 0; n < 400 && quiet < 30; n++ {
+		o := c18Once(sc, true)
+		if seen[o] {
+			quiet++
+			continue
+		}
+		seen[o] = true
+		quiet = 0
+		if out == "" || o < out {
+			out = o
+		}
+	}
+	return out, len(seen)
+}
+
+func c18case(c *ctx, sc *c18Scenario) {
+	out, d := c18Exec(sc)
+	c18emit(c, sc, out, d)
+}
+
+func c18emit(c *ctx, sc *c18Scenario, out string, distinct int) {
 	c.emit("C18", sc.args(), out)
 	c.stat("scenarios", 1)
+	if c18OrderSensitive(sc) {
+		c.stat("order_sensitive_sampled", 1)
+		c.stat(fmt.Sprintf("order_outputs_%d", distinct), 1)
+	}
 	c.stat(fmt.Sprintf("paths_%d", len(sc.ings)), 1)
 	hosts, backs := map[int]int{}, map[int]int{}
 	for _, g := range sc.ings {
@@ -795,6 +884,7 @@ func c18emit(c *ctx, sc *c18Scenario, out string) {
 // directory) and emits the lines in list order
 func c18Batch(c *ctx, scs []*c18Scenario) {
 	outs := make([]string, len(scs))
+	dist := make([]int, len(scs))
 	workers := runtime.NumCPU() / 2
 	if workers > 6 {
 		workers = 6
@@ -809,7 +899,7 @@ func c18Batch(c *ctx, scs []*c18Scenario) {
 		go func() {
 			defer wg.Done()
 			for i := range next {
-				outs[i] = c18Exec(scs[i])
+				outs[i], dist[i] = c18Exec(scs[i])
 			}
 		}()
 	}
@@ -819,7 +909,7 @@ func c18Batch(c *ctx, scs []*c18Scenario) {
 	close(next)
 	wg.Wait()
 	for i, sc := range scs {
-		c18emit(c, sc, outs[i])
+		c18emit(c, sc, outs[i], dist[i])
 	}
 }
 
@@ -1017,25 +1107,25 @@ func c18Random(r *gen.Rng) *c18Scenario {
 func runC18(c *ctx) {
 	// ---- corpus: minimised findings first
 	corpus := []string{
-		// buildBackendOAuth clears the deny that a malformed auth-url armed (confirmed in the design round)
+		// fixed 4d834ab: buildBackendOAuth cleared the deny that a malformed auth-url armed
 		"x0l0r2 0.0.0.b.mf.b.o.-",
 		"x0l0r2 0.0.0.b.mf.-.o.-,0.9.2.b.-.-.-.-",
 		"x1l1r2 0.0.0.b.bp.b.d.-",
 		"x0l0r0 0.0.0.b.h1.b.o.-", // exhausted port range, then oauth
-		// the precedence test reads the backend-wide auth-url: an oauth path of another ingress loses its protection
+		// fixed 4d834ab: the precedence test read the backend-wide auth-url, an oauth path of another ingress lost its protection
 		"x0l0r2 0.0.0.b.h1.b.-.-,0.1.0.b.-.-.o.-,0.9.2.b.-.-.-.-",
 		"x0l0r2 0.0.0.b.h1.f.-.-,1.1.0.b.-.-.o.-,0.9.2.b.-.-.-.-",
-		// frontend placement is decided per host by the first ingress: a second ingress's frontend auth-url is dropped
+		// known: frontend placement is decided per host by the first ingress, a second ingress's frontend auth-url is dropped
 		"x0l0r2 0.0.0.b.h1.b.-.-,0.1.1.e.h2.f.-.-",
 		"x0l0r2 0.0.0.b.-.b.-.-,0.1.1.e.h2.f.-.-",
-		// names used by frontend-placed paths are not protected from the clean-up of a full port range
+		// fixed 48fd9df: names used by frontend-placed paths were not protected from the clean-up of a full port range
 		"x0l0r1 0.0.0.e.h1.f.-.-,1.1.1.b.h2.b.-.-",
 		"x0l0r1 0.0.0.e.h1.f.-.-,1.1.1.e.h2.f.-.-",
-		// frontend rule: `-m str <match> '<key>'` is an exact comparison
+		// known: frontend rule `-m str <match> '<key>'` is an exact comparison
 		"x0l0r2 0.0.0.b.h1.f.-.-",
 		"x0l0r2 0.0.0.p.mf.f.-.-",
 		"x0l0r2 0.0.0.e.h1.f.-.-",
-		// auth-url with a placement typo switches oauth off
+		// known: auth-url with a placement typo switches oauth off
 		"x0l0r2 0.0.0.b.h1.t.o.-,0.9.2.b.-.-.-.-",
 		// well-behaved cases
 		"x0l0r2 0.0.0.b.h1.b.-.-",
